@@ -145,8 +145,7 @@ void harness(void)
 	while (plen < NS && path[plen]) ++plen;
 	/* what the level decoders guarantee about the name (hdr/l01.c, hdr/ext.c): no '/' in it */
 	for (i = 0; i < NS; ++i) ASSUME(nm[i] != '/');
-	ASSUME(level <= 3);
-	in_level_byte = level;
+	in_level_byte = level;                 /* any level byte: levels above 3 must be rejected */
 
 	h = lha_file_header_read((LHAInputStream *) &st);
 
@@ -163,10 +162,11 @@ void harness(void)
 		CHECK(slot_freed == 1 && !slot_live, "C20: a rejected header's block is released exactly once");
 		CHECK(live_strings == 0, "C20: a rejected header leaves no string allocation behind (names, link target, temporary joined path)");
 		/* completeness: everything in order => returned */
-		if ((ok & 1) && !(flags & LHA_FILE_COMMON_CRC) && !is_link && (is_dir ? (have_path & 1) : (have_name & 1)))
+		if (level <= 3 && (ok & 1) && !(flags & LHA_FILE_COMMON_CRC) && !is_link && (is_dir ? (have_path & 1) : (have_name & 1)))
 			CHECK(0, "C05: a decoded header with the entry's mandatory name/path and no common CRC is returned");
 	} else {
 		CHECK(ok & 1, "C12: nothing is returned when the level decoder failed");
+		CHECK(level <= 3, "C12: a header with a level above 3 is never returned");
 		CHECK(h == &slot.h && slot_live, "returned header is the allocated block");
 		if (!is_dir) CHECK(h->filename != NULL, "C12: a file entry without a name is not returned");
 		else if (!is_link) CHECK(h->path != NULL, "C12: a directory entry without a path is not returned");
